@@ -866,6 +866,35 @@ def while_verdict(model, m, f, w, consts):
         if not exits:
             return False, 'while True without any exit'
         return None, 'while True with exits but no recognised variant'
+    # W3: a stack of open iterators (depth-first walk of nested finite lists):  while stack: try: x = next(stack[-1])
+    #     except StopIteration: stack.pop(); continue ... stack.append(iter(x))
+    if isinstance(test, ast.Name):
+        S = test.id
+        pops_on_stop = False
+        for t in [x for x in walk_no_defs(w) if isinstance(x, ast.Try) and x in w.body]:
+            nexts = [x for st in t.body for x in ast.walk(st) if isinstance(x, ast.Call) and sa.call_name(x) == 'next' and x.args and
+                     isinstance(x.args[0], ast.Subscript) and isinstance(x.args[0].value, ast.Name) and x.args[0].value.id == S]
+            for h in t.handlers:
+                if h.type is not None and 'StopIteration' in src(h.type) and nexts and \
+                        any(isinstance(x, ast.Call) and isinstance(x.func, ast.Attribute) and x.func.attr == 'pop' and
+                            isinstance(x.func.value, ast.Name) and x.func.value.id == S for st in h.body for x in ast.walk(st)):
+                    pops_on_stop = True
+        if pops_on_stop:
+            # what else touches the stack: only pushes of iter(<something>) - an iterator over one more finite list
+            other = []
+            for x in walk_no_defs(w):
+                if isinstance(x, ast.Call) and isinstance(x.func, ast.Attribute) and isinstance(x.func.value, ast.Name) and x.func.value.id == S:
+                    if x.func.attr == 'pop':
+                        continue
+                    if x.func.attr == 'append' and len(x.args) == 1 and isinstance(x.args[0], ast.Call) and sa.call_name(x.args[0]) == 'iter':
+                        continue
+                    other.append(src(x)[:40])
+                if isinstance(x, ast.Name) and x.id == S and isinstance(x.ctx, ast.Store):
+                    other.append('rebinding of %s' % S)
+            if not other:
+                return True, ('W3 stack of open iterators: every iteration either advances the finite iterator on top (A1/A4) or drops an '
+                              'exhausted one, and only iterators over items just taken are pushed (finite nesting)')
+            return None, 'a stack of iterators that is also edited by %s' % ', '.join(other)
     # W2: monotone counter
     var, kind, bound = _loop_var(test, consts)
     if var is None:
